@@ -6,11 +6,14 @@
 import json, os, subprocess, sys, shutil, time
 VERIF = os.path.dirname(os.path.dirname(os.path.abspath(__file__)))
 SEEDED = os.path.join(VERIF, 'seeded')
-REPO = '/repo'
+# the tree the patches are applied to: /repo, or (SEED_REPO) a scratch worktree of it, so that other work that
+# reads /repo is not disturbed; the checks are then pointed at it through VERIF_REPO
+REPO = os.environ.get('SEED_REPO', '/repo')
 PY = '/venv/bin/python'
 
 def sh(cmd, cwd=None, timeout=1800):
-    p = subprocess.run(cmd, shell=True, cwd=cwd, capture_output=True, text=True, timeout=timeout)
+    env = dict(os.environ, VERIF_REPO=REPO) if REPO != '/repo' else None
+    p = subprocess.run(cmd, shell=True, cwd=cwd, capture_output=True, text=True, timeout=timeout, env=env)
     return p.returncode, p.stdout + p.stderr
 
 def tests(wt):
